@@ -205,6 +205,7 @@ def run(ctx):
             check_cell(ctx, m, grant, gen, sup, cs, req, orig, pl)
     run_histories(ctx, m)
     run_overlapping(ctx, m)
+    run_django_config(ctx, m)
 
 
 TRANSPORT = "neutral"
@@ -317,7 +318,46 @@ def run_histories(ctx, m):
             check_cell(ctx, m, grant, gen, sup, cs, req, rng.choice(["a b", "a b c d"]) if grant == "refresh" else None, "form", shared)
 
 
+def run_django_config(ctx, m):
+    """The Django provider reads its supported scopes from the AUTHLIB_OAUTH2_PROVIDER setting; whatever collection the deployment
+    wrote there (list, tuple, set, frozenset, a dict of scope -> description), an unsupported scope is refused and a supported one
+    issued -- as the model says for the same set of supported scopes."""
+    from impl import django_provider as DP
+    sup = ["a", "b", "c"]
+    forms = {"list": list(sup), "tuple": tuple(sup), "set": set(sup), "frozenset": frozenset(sup), "dict": {k: k.upper() for k in sup},
+             "dict-keys": {k: 1 for k in sup}.keys(), "absent": None}
+    for fname, cfg in forms.items():
+        for grant, form0 in (("client_credentials", {"grant_type": "client_credentials"}), ("password", {"grant_type": "password", "username": "alice", "password": "pw"})):
+            for requested in (None, "a", "a b", "a z", "z", "d", "c b a", "a a"):
+                store = S.Store()
+                cl = S.Client("c1", "sec", ["https://client.example/cb"], "a b c d z", ALL_GRANT_TYPES, ["code"], "client_secret_basic")
+                cl.user_id = "owner"
+                store.clients["c1"] = cl
+                p = DP.OAuth2Provider(store, {"alice": "pw"}, config={} if cfg is None else {"scopes_supported": cfg})
+                for k in ("password", "client_credentials"):
+                    p.server.register_grant(p.grants[k])
+                form = dict(form0)
+                if requested is not None:
+                    form["scope"] = requested
+                try:
+                    got = outcome(p.token(form, S.basic_header("c1", "sec")), "bearer")
+                except Exception as e:  # noqa: BLE001
+                    got = ["escapes", type(e).__name__]
+                a = {"grant": grant, "generator": "bearer", "supported": [] if cfg is None else sup, "client_scope": "a b c d z", "requested": requested, "original": None}
+                mod = m.call("issue", a)
+                case = dict(a, django_config=fname)
+                ctx.case(case, ("django-config", fname, grant, requested), "django-config:%s:%s" % (fname, got[0]))
+                ctx.compare("issue", case, got, mod)
+                if got[0] == "escapes":
+                    ctx.violation("C08:django-config:escapes:%s" % got[1], "the Django provider raised on a token request", case)
+                if got[0] == "issued" and cfg is not None and not set((got[1] or "").split()) <= set(sup):
+                    ctx.violation("C08:django-config:unsupported-scope-issued:%s" % fname, "a scope outside the deployment's supported scopes (given as %s in the "
+                                  "Django setting) was issued" % fname, dict(case, got=got))
+
+
 def run_case(ctx, case):
+    if "django_config" in case:
+        return run_django_config(ctx, ctx.model)
     got = run_flow(case["grant"], case["generator"], case["supported"], case["client_scope"], case["requested"], case["original"],
                    case.get("placement", "form"))
     if got[0] == "issued":
